@@ -1,4 +1,5 @@
 """C15 - introspection reports exactly the schema."""
+from vf import engine_p
 from vf import execharness as H
 from vf import ref_coerce as RC
 from vf import schemas
@@ -217,6 +218,7 @@ def check(tier, seed):
                                                        "_format_default_value", "ResolutionContext.field_definition"], "bound": "%d introspection requests" % n})
     run.sample({"schema": "code", "contract": "every reported type / member / default == the schema object; parse_value(defaultValue) coerces to the declared default"})
     run.trusted("vf/ref_coerce.coerce_literal to read defaultValue strings back; execution itself (C04)")
+    engine_p.run(run, 'C15')
     return run.finish("other", "bounded stand-in: the standard introspection query's result compared member by member with the schema objects; each "
                                "defaultValue parsed and coerced back to the declared default",
                       checker_cmd="./check C15 --tier %s" % tier)
